@@ -374,7 +374,8 @@ class Evaluator:
         s.atom_methods: dict = {}   # (atom, method name) -> (Module, FunctionDef): methods of a typed atom that are inlined (self = the atom)
         s.builds: list = []      # every array-build term created, in order of creation (dicts: name, term, mod, line)
         s._build = None          # array-build mode: {'gens': [...], 'pc0': n, 'recs': {name: [...]}, 'ok': bool}
-        s._undecided = 0                   # nesting depth of undecided guards (facts are learnt only at depth 0)
+        s._undecided = 0                   # nesting depth of undecided guards (facts learnt there are scoped to the branch)
+        s._scoped = 0                      # >0 while a branch is evaluated under scoped facts (restored afterwards)
 
     def fresh(s):
         """evaluator with the same configuration but none of the facts / stores learnt while evaluating code (used for specifications)"""
@@ -387,7 +388,7 @@ class Evaluator:
         if top:
             s.assumed.append((g, polarity))
             s.raises.append({'guard': g, 'polarity': polarity, 'exc': exc, 'pc': tuple(s._pc)})
-        if s._undecided: return
+        if s._undecided and not s._scoped: return
         if isinstance(g, Opq) and g.k and g.k[0] == 'cmp' and isinstance(g.k[2], Poly):
             op, d = g.k[1], g.k[2]
             rel = {('Gt', True): '>0', ('Gt', False): '<=0', ('GtE', True): '>=0', ('GtE', False): '<0',
@@ -397,6 +398,33 @@ class Evaluator:
             for x in g.k[1:]: s.learn(x, False, exc, False)
         elif isinstance(g, Opq) and g.k and g.k[0] == 'and' and polarity is True:
             for x in g.k[1:]: s.learn(x, True, exc, False)
+
+    def refine_env(s, env, g, polarity):
+        """a test is now known to have the given outcome on every path that goes on: locals that were computed as `g ? a : b` become the
+        surviving arm (x = d.get(k, MISSING); if x is MISSING: continue / raise; ... x ...)"""
+        if isinstance(g, Opq) and g.k and g.k[0] == 'not': g, polarity = g.k[1], not polarity
+        if isinstance(g, bool): return
+        e = env
+        while e is not None:
+            for nm, v in list(e.items()):
+                if nm != '__parent__' and isinstance(v, Cond) and same(v.g, g): e[nm] = v.a if polarity else v.b
+            e = e.get('__parent__')
+
+    def _snap(s):
+        return ({k: set(v) for k, v in s.facts.items()}, list(s.assumed))
+
+    def _restore(s, snap):
+        s.facts, s.assumed = {k: set(v) for k, v in snap[0].items()}, list(snap[1])
+
+    def _assume_branch(s, g, polarity):
+        """facts that hold inside one arm of an undecided test"""
+        if isinstance(g, Opq) and g.k and g.k[0] == 'cmp' and isinstance(g.k[2], Poly) or (isinstance(g, Opq) and g.k and g.k[0] in ('and', 'or')):
+            s.learn(g, polarity, None, False)
+            if isinstance(g, Opq) and g.k[0] == 'not': return
+        if isinstance(g, Opq) and g.k and g.k[0] == 'not':
+            s._assume_branch(g.k[1], not polarity); return
+        if isinstance(g, Opq) and not (g.k and g.k[0] == 'cmp' and isinstance(g.k[2], Poly)):
+            s.assumed.append((g, polarity))
 
     # ------------------------------------------------------------------ facts / signs
     def add_fact(s, p: Poly, rel: str):
@@ -465,6 +493,12 @@ class Evaluator:
         r = s.prog.resolve(mod, name)
         if r is not None:
             if r[0] == 'var':
+                if isinstance(r[2], ast.Call) and isinstance(r[2].func, ast.Name) and r[2].func.id == 'object' and not r[2].args:
+                    return Poly.atom(('sentinel', r[1].name, r[3]))        # a unique marker object: identical only to itself
+                if s.prog.is_filled_at_import(r[1], r[3]):
+                    # a module-level table completed by top-level statements (registration decorators, item stores, update): its final content
+                    v_ = s.prog.module_namespace(r[1]).get(r[3])
+                    if v_ is not None: return v_
                 return s.ev(r[2], {'__parent__': None}, r[1], 0)
             rv = s.ref_of(r)
             if rv is not None: return rv
@@ -641,8 +675,8 @@ class Evaluator:
         return Opq('cmp', op, d)
 
     def compare(s, op, a, b):
-        if isinstance(a, Cond): return Cond(a.g, s.compare(op, a.a, b), s.compare(op, a.b, b))
-        if isinstance(b, Cond): return Cond(b.g, s.compare(op, a, b.a), s.compare(op, a, b.b))
+        if isinstance(a, Cond): return s.mkcond(a.g, s.compare(op, a.a, b), s.compare(op, a.b, b))
+        if isinstance(b, Cond): return s.mkcond(b.g, s.compare(op, a, b.a), s.compare(op, a, b.b))
         if isinstance(op, (ast.In, ast.NotIn)):
             r = None
             if isinstance(b, (list, tuple)) and not isinstance(a, (Poly, Opq, Cond)) or (isinstance(b, (list, tuple)) and all(not isinstance(x, (Opq, Cond)) for x in b) and isinstance(a, (str, Poly)) and (isinstance(a, str) or a.is_const())):
@@ -656,6 +690,14 @@ class Evaluator:
         if isinstance(op, (ast.Is, ast.IsNot)):
             if b is None and not isinstance(a, (Opq,)) and not (isinstance(a, Poly) and not a.is_const()):
                 return (a is None) == isinstance(op, ast.Is)
+            sa, sb = _sentinel(a), _sentinel(b)
+            if sa is not None or sb is not None:
+                if sa is not None and sb is not None: return (sa == sb) == isinstance(op, ast.Is)
+                other = b if sa is not None else a
+                if other is None or isinstance(other, (Ref, Closure, Rec, str, bool, list, tuple, dict)) or (isinstance(other, Poly) and other.is_const()):
+                    return not isinstance(op, ast.Is)
+                if isinstance(other, Opq) and other.k and other.k[0] == 'dispatch' and isinstance(other.k[1], dict) and not any(_sentinel(v_) is not None for v_ in other.k[1].values()):
+                    return not isinstance(op, ast.Is)
             r = Opq('is', a, b)
             return r if isinstance(op, ast.Is) else s.negate(r)
         if isinstance(a, str) and isinstance(b, str):
@@ -696,11 +738,13 @@ class Evaluator:
         g = s.truth(s.ev(e.test, env, mod, depth))
         if g is True: return s.ev(e.body, env, mod, depth)
         if g is False: return s.ev(e.orelse, env, mod, depth)
-        s._undecided += 1
+        s._undecided += 1; s._scoped += 1
+        snap = s._snap()
         try:
-            a, b = s.ev(e.body, env, mod, depth), s.ev(e.orelse, env, mod, depth)
+            s._assume_branch(g, True); a = s.ev(e.body, env, mod, depth); s._restore(snap)
+            s._assume_branch(g, False); b = s.ev(e.orelse, env, mod, depth); s._restore(snap)
         finally:
-            s._undecided -= 1
+            s._undecided -= 1; s._scoped -= 1
         return s.mkcond(g, a, b)
 
     def mkcond(s, g, a, b):
@@ -710,6 +754,8 @@ class Evaluator:
             return Cond(g.g, s.mkcond(g.a, a, b), s.mkcond(g.b, a, b))
         if g is True: return a
         if g is False: return b
+        if a is True and b is False: return g
+        if a is False and b is True: return s.negate(g)
         if a is RAISE and b is RAISE: return RAISE
         if a is RAISE:
             s.learn(g, False); return b
@@ -732,6 +778,7 @@ class Evaluator:
             if isinstance(x, ast.Starred):
                 v = s.ev(x.value, env, mod, depth)
                 if isinstance(v, (list, tuple)): out += list(v)
+                elif isinstance(v, dict): out += [k.v if isinstance(k, _HK) else k for k in v]
                 else: out.append(Opq('*', v))
             else: out.append(s.ev(x, env, mod, depth))
         return tuple(out)
@@ -774,7 +821,7 @@ class Evaluator:
         env2 = {'__parent__': env}
         gens = []
         for g in e.generators:
-            it = s.ev(g.iter, env2, mod, depth)
+            it = _iter_view(s.ev(g.iter, env2, mod, depth))
             # concrete list/tuple of known length with a single generator: expand
             if len(e.generators) == 1 and isinstance(it, (list, tuple)) and len(it) <= 24:
                 out = []
@@ -795,7 +842,7 @@ class Evaluator:
             bound = s.bind_iter(g.target, it, env2, mod, depth, depth_id)
             fs = [s.truth(s.ev(c, env2, mod, depth)) for c in g.ifs]
             fs = [f for f in fs if f is not True]
-            gens.append((it, fs))
+            gens.append((_fuse_iter(it) if depth_id == 0 else it, fs))
         if kind == 'dict':
             elt = (s.ev(e.key, env2, mod, depth), s.ev(e.value, env2, mod, depth))
         else:
@@ -836,6 +883,7 @@ class Evaluator:
 
     def getattr(s, v, attr, mod, depth):
         if isinstance(v, Cond): return Cond(v.g, s.getattr(v.a, attr, mod, depth), s.getattr(v.b, attr, mod, depth))
+        if attr == '__name__' and isinstance(v, (Ref, Closure)) and getattr(v, 'name', None): return v.name
         if isinstance(v, Ref):
             if v.kind == 'module':
                 r = s.prog.resolve_expr(v.mod, ast.Name(id=attr, ctx=ast.Load()))
@@ -994,6 +1042,9 @@ class Evaluator:
             if attr == 'get':
                 r = s.getitem(recv, args[0])
                 if isinstance(r, Opq) and r.k[0] == 'KeyError': return args[1] if len(args) > 1 else None
+                if isinstance(r, Opq) and r.k[0] == 'dispatch':
+                    # symbolic key: the entry when the key is present, the default otherwise
+                    return s.mkcond(Opq('in', args[0], recv), r, args[1] if len(args) > 1 else None)
                 return r
             if attr == 'keys': return list(k.v if isinstance(k, _HK) else k for k in recv)
             if attr == 'values': return list(recv.values())
@@ -1027,6 +1078,7 @@ class Evaluator:
             if fv.kind == 'builtin': return s.builtin(fv.name, args, kw, mod, depth)
             if fv.kind == 'func':
                 if (fv.mod.short, fv.name) in s.opaque_fns:
+                    args, kw = s.canonical_args(fv, args, kw, depth)
                     return Poly.atom(('call', ('fn', fv.name), tuple(tkey(a) for a in args), tuple(sorted((k, tkey(v)) for k, v in kw.items()))))
                 if depth >= s.depth_limit: return Opq('?', 'depth')
                 s.calls.append((fv.mod.short, fv.name))
@@ -1053,9 +1105,36 @@ class Evaluator:
             return Poly.atom(('call', fv.as_atom(), tuple(tkey(a) for a in args), tuple(sorted((k, tkey(v)) for k, v in kw.items()))))
         return Opq('?', 'call', fv, *args)
 
+    def canonical_args(s, fv, args, kw, depth):
+        """one spelling for a call of a known function: every argument bound to its parameter and listed positionally, omitted trailing
+        parameters filled with their evaluated defaults (f(a, w=1) == f(a, 1) == f(a) when 1 is the default)"""
+        try:
+            pos, defaults, vararg, kwarg, kwonly, kwdefaults = params_of(fv.node)
+        except Exception:
+            return args, kw
+        if vararg or kwarg or kwonly or len(args) > len(pos) or any(k not in pos for k in kw): return args, kw
+        bound = dict(zip(pos, args))
+        for k, v in kw.items():
+            if k in bound: return args, kw
+            bound[k] = v
+        dmap = dict(zip(pos[len(pos) - len(defaults):], defaults))
+        out = []
+        for p in pos:
+            if p in bound: out.append(bound[p])
+            elif p in dmap:
+                try: out.append(s.ev(dmap[p], {'__parent__': None}, fv.mod, depth + 1))
+                except Exception: return args, kw
+            else: return args, kw
+        return out, {}
+
     def construct(s, ref: Ref, args, kw, depth):
         m, cls = ref.mod, ref.node
         if cls.name in getattr(s, 'opaque_classes', ()):
+            # canonical spelling: positional arguments bound to the dataclass fields and passed by keyword
+            if args and (s.prog.is_dataclass(cls) or any(s.prog.is_dataclass(c) for _, c in s.prog.mro(m, cls))):
+                fl = [f[0] for f in s.prog.dataclass_fields(m, cls) if f[3]]
+                if len(args) <= len(fl) and not any(k in fl[:len(args)] for k in kw):
+                    kw = dict(kw, **dict(zip(fl, args))); args = []
             return Poly.atom(('call', ('cls', cls.name), tuple(tkey(a) for a in args), tuple(sorted((k, tkey(v)) for k, v in kw.items()))))
         init = s.prog.find_member(m, cls, '__init__')
         if s.prog.is_dataclass(cls) or any(s.prog.is_dataclass(c) for _, c in s.prog.mro(m, cls)):
@@ -1093,6 +1172,8 @@ class Evaluator:
         if name == 'len':
             if isinstance(a, (list, tuple, dict, str)): return Poly.const(len(a))
             return Poly.atom(('len', tkey(a)))
+        if name == 'getattr' and len(args) >= 2 and isinstance(args[1], str):
+            return s.getattr(a, args[1], mod, depth)
         if name in ('list', 'tuple') and len(args) == 1:
             if isinstance(a, (list, tuple)): return list(a) if name == 'list' else tuple(a)
             if isinstance(a, dict): return [k.v if isinstance(k, _HK) else k for k in a]
@@ -1105,6 +1186,13 @@ class Evaluator:
         if name == 'set' and len(args) == 1 and isinstance(a, Comp) and a.kind in ('list', 'gen', 'set'): return Comp(a.elt, a.gens, 'set')
         if name == 'sorted' and len(args) == 1 and not kw and isinstance(a, Opq) and a.k and a.k[0] == 'list' and len(a.k) == 2: return Opq('sorted', a.k[1])
         if name in ('list', 'tuple') and len(args) == 1 and isinstance(a, Comp) and a.kind == 'set': return Opq('list', a)
+        if name == 'dict' and not args and kw: return dict(kw)
+        if name == 'zip' and args and all(isinstance(x, (list, tuple)) for x in args):
+            return [tuple(x[i] for x in args) for i in range(min(len(x) for x in args))]
+        if name == 'dict' and len(args) == 1 and isinstance(a, (list, tuple)) and all(isinstance(x, (list, tuple)) and len(x) == 2 for x in a):
+            out_ = {}
+            for k_, v_ in a: out_[k_ if isinstance(k_, (str, bool, int)) or k_ is None else _HK(k_)] = v_
+            out_.update(kw); return out_
         if name == 'dict' and not args and not kw: return {}
         if name == 'dict' and len(args) == 1 and isinstance(a, dict): return dict(a, **kw)
         if name == 'sum' and len(args) >= 1:
@@ -1129,6 +1217,12 @@ class Evaluator:
             return Opq('type', a)
         if name == 'sorted' and len(args) == 1 and not kw and isinstance(a, (list, tuple)) and all(isinstance(x, str) for x in a):
             return sorted(a)
+        if name == 'zip' and set(kw) <= {'strict'}: kw = {}                  # strict only adds a length check
+        if name == 'enumerate' and kw.get('start') is not None and isinstance(kw['start'], Poly) and kw['start'].is_zero(): kw = {}
+        if name == 'map' and len(args) == 2 and not kw and isinstance(args[0], (Closure, Ref)):
+            # map(f, xs) == [f(x) for x in xs]
+            it_ = _iter_view(args[1]); x_ = s.elem_of(it_, 0)
+            return Comp(s.apply(args[0], [x_], {}, mod, depth), [(_fuse_iter(it_), [])], 'list')
         if name in ('zip', 'enumerate', 'set', 'sorted', 'any', 'all', 'min', 'max', 'range', 'map', 'reversed', 'iter', 'next', 'hasattr', 'getattr', 'print', 'filter', 'frozenset'):
             return Opq(name, *args, *[Opq('kw', k, v) for k, v in sorted(kw.items())])
         if name in ('ValueError', 'KeyError', 'TypeError', 'AttributeError', 'Exception', 'IndexError'): return Opq('exc', name)
@@ -1310,6 +1404,7 @@ class Evaluator:
             if isinstance(st, (ast.Assign, ast.AnnAssign)):
                 if isinstance(st, ast.AnnAssign) and st.value is None: continue
                 val = s.ev(st.value, env, mod, depth)
+                if val is RAISE: return RAISE
                 for t in (st.targets if isinstance(st, ast.Assign) else [st.target]): s.assign(t, val, env, mod, depth)
             elif isinstance(st, ast.AugAssign) and isinstance(st.target, ast.Subscript) and isinstance(st.op, (ast.Add, ast.Sub)) and s.array_store(st.target, s.ev(st.value, env, mod, depth) if isinstance(st.op, ast.Add) else s.negate_value(s.ev(st.value, env, mod, depth)), env, mod, depth, aug=True):
                 pass
@@ -1321,22 +1416,23 @@ class Evaluator:
                 if g is True: return s.block(st.body + rest, env, mod, depth)
                 if g is False: return s.block(st.orelse + rest, env, mod, depth)
                 if _always_raises(st.body):
-                    s.learn(g, False, _exc_name(st.body[-1]))
+                    s.learn(g, False, _exc_name(st.body[-1])); s.refine_env(env, g, False)
                     return s.block(st.orelse + rest, env, mod, depth)
                 if st.orelse and _always_raises(st.orelse):
-                    s.learn(g, True, _exc_name(st.orelse[-1]))
+                    s.learn(g, True, _exc_name(st.orelse[-1])); s.refine_env(env, g, True)
                     return s.block(st.body + rest, env, mod, depth)
                 if not _can_leave(st.body) and not _can_leave(st.orelse):
                     # neither branch returns or raises: evaluate both, merge what they assign into conditional VALUES, go on once
                     e1, e2 = _fork(env), _fork(env)
                     st0 = dict(s.stores)
-                    s._undecided += 1
+                    s._undecided += 1; s._scoped += 1
+                    snap = s._snap()
                     try:
-                        s._pc.append((g, True)); s.block(st.body, e1, mod, depth)
+                        s._pc.append((g, True)); s._assume_branch(g, True); s.block(st.body, e1, mod, depth); s._restore(snap)
                         s._pc[-1] = (g, False); st1 = s.stores; s.stores = dict(st0)
-                        s.block(st.orelse, e2, mod, depth); s._pc.pop(); st2 = s.stores
+                        s._assume_branch(g, False); s.block(st.orelse, e2, mod, depth); s._pc.pop(); st2 = s.stores; s._restore(snap)
                     finally:
-                        s._undecided -= 1
+                        s._undecided -= 1; s._scoped -= 1
                     merged = {}
                     for k in set(st1) | set(st2):
                         a, b = st1.get(k, st0.get(k)), st2.get(k, st0.get(k))
@@ -1347,17 +1443,25 @@ class Evaluator:
                     continue
                 e1, e2 = _fork(env), _fork(env)
                 st0 = dict(s.stores)
-                s._undecided += 1
+                s._undecided += 1; s._scoped += 1
+                snap = s._snap(); after1 = after2 = None
                 try:
                     s._pc.append((g, True))
+                    s._assume_branch(g, True)
                     r1 = s.block(st.body + rest, e1, mod, depth)
+                    after1 = s._snap(); s._restore(snap)
                     s._pc[-1] = (g, False)
                     st1 = s.stores; s.stores = dict(st0)
+                    s._assume_branch(g, False)
                     r2 = s.block(st.orelse + rest, e2, mod, depth)
+                    after2 = s._snap(); s._restore(snap)
                     s._pc.pop()
                     st2 = s.stores
                 finally:
-                    s._undecided -= 1
+                    s._undecided -= 1; s._scoped -= 1
+                # only one arm survives: what was established on it holds from here on
+                if r1 is RAISE and r2 is not RAISE and after2 is not None and (not s._undecided or s._scoped): s._restore(after2)
+                elif r2 is RAISE and r1 is not RAISE and after1 is not None and (not s._undecided or s._scoped): s._restore(after1)
                 merged = {}
                 for k in set(st1) | set(st2):
                     a, b = st1.get(k, st0.get(k)), st2.get(k, st0.get(k))
@@ -1377,9 +1481,17 @@ class Evaluator:
             elif isinstance(st, (ast.For, ast.While)):
                 s.loop(st, env, mod, depth)
             elif isinstance(st, ast.FunctionDef):
-                env[st.name] = Closure(st, env, mod, st.name)
+                fv_ = Closure(st, env, mod, st.name)
+                for d_ in reversed(st.decorator_list):
+                    # package-defined decorators are applied (registries); library decorators (dataclass, staticmethod, cache...) leave the function as it is
+                    try: dv_ = s.ev(d_, env, mod, depth)
+                    except Exception: dv_ = None
+                    if isinstance(dv_, Closure) or (isinstance(dv_, Ref) and dv_.kind == 'func'):
+                        r_ = s.apply(dv_, [fv_], {}, mod, depth)
+                        if isinstance(r_, (Closure, Ref)): fv_ = r_
+                env[st.name] = fv_
             elif isinstance(st, ast.Expr):
-                s.expr_stmt(st.value, env, mod, depth)
+                if s.expr_stmt(st.value, env, mod, depth) is RAISE: return RAISE        # a helper that raises on every path (a validation routine)
             elif isinstance(st, (ast.Pass, ast.Import, ast.ImportFrom, ast.Global, ast.Nonlocal, ast.Assert, ast.Delete, ast.ClassDef)):
                 if isinstance(st, ast.ImportFrom):
                     # function-local import: bind through a temporary module view
@@ -1409,7 +1521,7 @@ class Evaluator:
             if attr in ('append', 'remove', 'sort', 'extend', 'clear', 'insert', 'pop', 'update', 'add', 'discard', 'reverse', 'setdefault'):
                 s.mutations.append((nm, attr, args))
                 s.rebind(nm, Opq('mutated', attr, cur, *args), env); return
-        s.ev(e, env, mod, depth)
+        return s.ev(e, env, mod, depth)
 
     def rebind(s, name, val, env):
         e = env
@@ -1430,7 +1542,7 @@ class Evaluator:
                 if n.value.func.attr in ('append', 'update', 'extend', 'add', 'remove', 'pop', 'sort') and n.value.func.value.id not in assigned:
                     assigned.append(n.value.func.value.id)
         if isinstance(st, ast.For):
-            it = s.ev(st.iter, env, mod, depth)
+            it = _iter_view(s.ev(st.iter, env, mod, depth))
             tnames = [x.id for x in ast.walk(st.target) if isinstance(x, ast.Name)]
             # a loop over a concrete short sequence is executed element by element
             if isinstance(it, (list, tuple)) and len(it) <= 24 and not st.orelse and not any(isinstance(n, (ast.Break, ast.Continue, ast.Return)) for n in ast.walk(st)):
@@ -1451,7 +1563,7 @@ class Evaluator:
                     env2 = {'__parent__': env}
                     s.bind_iter(st.target, it, env2, mod, depth, 0)
                     fs = [s.truth(s.ev(c, env2, mod, depth)) for c in filt]
-                    s.rebind(nm, Opq('Σ', Comp(s.ev(body[0].value, env2, mod, depth), [(it, [f for f in fs if f is not True])], 'gen')), env)
+                    s.rebind(nm, Opq('Σ', Comp(s.ev(body[0].value, env2, mod, depth), [(_fuse_iter(it), [f for f in fs if f is not True])], 'gen')), env)
                     return
             env2 = {'__parent__': env}
             for nm in assigned:
@@ -1522,7 +1634,7 @@ class Evaluator:
                 if isinstance(stx, ast.If):
                     g = s.truth(s.ev(stx.test, env2, mod, depth))
                     if not stx.orelse and len(stx.body) == 1 and isinstance(stx.body[0], ast.Continue):
-                        gens[level][1].append(s.negate(g)); continue
+                        gens[level][1].append(s.negate(g)); s.refine_env(env2, g, False); continue
                     if not stx.orelse:
                         before = len(gens[level][1])
                         gens[level][1].append(g)
@@ -1539,8 +1651,18 @@ class Evaluator:
                     kind = {'append': 'list', 'add': 'set'}[stx.value.func.attr]
                     if place is None or s._empty_acc(place[2]) != kind or (place[0], _pk(place[1])) in records: ok[0] = False; return
                     records[(place[0], _pk(place[1]))] = (place, kind, s.ev(stx.value.args[0], env2, mod, depth)); continue
+                if isinstance(stx, ast.Expr) and isinstance(stx.value, ast.Call) and isinstance(stx.value.func, ast.Attribute) and stx.value.func.attr in ('extend', 'update') \
+                        and len(stx.value.args) == 1 and not stx.value.keywords and stx is stmts[-1]:
+                    # out.extend(xs) / out.update(xs)  ==  one more generator:  ... for y in xs  with element y
+                    place = s._acc_target(stx.value.func.value, env, mod, depth)
+                    kind = {'extend': 'list', 'update': 'set'}[stx.value.func.attr]
+                    if place is None or s._empty_acc(place[2]) != kind or (place[0], _pk(place[1])) in records: ok[0] = False; return
+                    it2 = _iter_view(s.ev(stx.value.args[0], env2, mod, depth))
+                    if isinstance(it2, dict) or kind == 'set' and s._empty_acc(place[2]) == 'dict': ok[0] = False; return
+                    gens.append((it2, []))
+                    records[(place[0], _pk(place[1]))] = (place, kind, s.elem_of(it2, len(gens) - 1)); continue
                 if isinstance(stx, ast.For) and not stx.orelse:
-                    it2 = s.ev(stx.iter, env2, mod, depth)
+                    it2 = _iter_view(s.ev(stx.iter, env2, mod, depth))
                     env3 = {'__parent__': env2}
                     gens.append((it2, []))
                     s.bind_iter(stx.target, it2, env3, mod, depth, len(gens) - 1)
@@ -1559,7 +1681,7 @@ class Evaluator:
             return False
         if not ok[0] or not records: return False
         for (pk, _), (place, kind, elt) in records.items():
-            gs = [(g_it, [f for f in fs if f is not True]) for g_it, fs in gens]
+            gs = [((_fuse_iter(g_it) if gi_ == 0 else g_it), [f for f in fs if f is not True]) for gi_, (g_it, fs) in enumerate(gens)]
             if any(f is False for _, fs in gs for f in fs): val = {'list': [], 'set': Opq('set'), 'dict': {}}[kind]
             else: val = Comp(elt, gs, kind)
             if place[0] == 'name': s.rebind(place[1], val, env)
@@ -1668,6 +1790,15 @@ class Evaluator:
             s.rebind(nm, bt, env)
         return True
 
+    def exec_module(s, mod):
+        """run the top-level statements of a module once (assignments, decorated definitions, table updates) and return its namespace"""
+        env = {'__parent__': None}
+        try:
+            s.block([st for st in mod.tree.body if not isinstance(st, (ast.ClassDef, ast.Import, ast.ImportFrom))], env, mod, 1)
+        except Exception:
+            pass
+        return env
+
     def reeval_loop(s, lp, target_value, depth=1):
         """evaluate the body of a summarised loop once more with the loop target bound to `target_value` (carried names stay atoms)"""
         env2 = {'__parent__': lp['env']}
@@ -1726,6 +1857,34 @@ def subst_key(k, old, new, old_atom=None, new_atom=None):
     if old_atom is not None and k == old_atom: return new_atom if new_atom is not None else new
     if isinstance(k, tuple): return tuple(subst_key(x, old, new, old_atom, new_atom) for x in k)
     return k
+
+
+def _fuse_iter(it):
+    """map fusion: iterating a filter-free list comprehension over `base` (or a zip of such maps / of the base itself) visits the elements of
+    `base` in order -- the bound variables are already expressed over the element of `base`"""
+    for _ in range(8):
+        if isinstance(it, Comp) and it.kind in ('list', 'gen') and len(it.gens) == 1 and not it.gens[0][1]:
+            it = it.gens[0][0]; continue
+        if isinstance(it, Opq) and it.k and it.k[0] == 'zip' and len(it.k) >= 2:
+            bases = [_fuse_iter(a) for a in it.k[1:]]
+            if all(same(b, bases[0]) for b in bases[1:]) and not isinstance(bases[0], (list, tuple, dict)):
+                it = bases[0]; continue
+        break
+    return it
+
+
+def _sentinel(v):
+    if isinstance(v, Poly):
+        at = v.as_atom()
+        if isinstance(at, tuple) and at[:1] == ('sentinel',): return at
+    return None
+
+
+def _iter_view(it):
+    """what a loop / comprehension iterates: a defensive copy list(x) / tuple(x) / iter(x) iterates x"""
+    while isinstance(it, Opq) and it.k and it.k[0] in ('list', 'tuple', 'iter') and len(it.k) == 2 and not (isinstance(it.k[1], Comp) and it.k[1].kind == 'set'):
+        it = it.k[1]
+    return it
 
 
 def _is_empty_array(x, kind):
@@ -1940,11 +2099,18 @@ def _exclusive(d):
     return False
 
 
+def _canon_guard(gk, val):
+    """one spelling per test:  d > 0  is  not (-d >= 0)"""
+    if isinstance(gk, tuple) and len(gk) == 4 and gk[:3] == ('opq', 'cmp', 'Gt') and isinstance(gk[3], tuple) and gk[3][:1] == ('poly',):
+        return ('opq', 'cmp', 'GtE', Poly({m: c for m, c in gk[3][1:]}).neg().key()), not val
+    return gk, val
+
+
 def paths_keyed(v, pc=(), _top=True):
     if _top: v = hoist(v)
     if isinstance(v, Cond):
         gk = tkey(v.g)
-        return paths_keyed(v.a, pc + ((gk, True),), False) + paths_keyed(v.b, pc + ((gk, False),), False)
+        return paths_keyed(v.a, pc + (_canon_guard(gk, True),), False) + paths_keyed(v.b, pc + (_canon_guard(gk, False),), False)
     return [(dict(pc), v)]
 
 
